@@ -9,11 +9,13 @@ import (
 // Map iteration order policies (the seam behind every `range` over a map in
 // repository code).
 const (
-	PolSorted  = iota // ascending key order
-	PolReverse        // descending key order
-	PolRotate         // sorted order rotated by Seed % n
-	PolHash           // ordered by a keyed hash of the key
-	PolNative         // Go's own (randomised) order: not replayable, used for realism
+	PolSorted   = iota // ascending key order
+	PolReverse         // descending key order
+	PolRotate          // sorted order rotated by Seed % n
+	PolHash            // ordered by a keyed hash of the key
+	PolNative          // Go's own (randomised) order: not replayable, used for realism
+	PolPerRange        // a fresh keyed-hash order for every single range statement executed (as Go
+	// re-randomises per range): two ranges over the same map may disagree
 )
 
 type Policy struct {
@@ -38,17 +40,25 @@ var (
 func SetPolicy(p Policy) {
 	if active && cur >= 0 {
 		tasks[cur].policy = p
+		tasks[cur].ranges = 0
 		return
 	}
 	ctrl.policy = p
+	ctrl.ranges = 0
 }
 
 //go:norace
 func curPolicy() Policy {
+	t := &ctrl
 	if active && cur >= 0 {
-		return tasks[cur].policy
+		t = &tasks[cur]
 	}
-	return ctrl.policy
+	p := t.policy
+	if p.Kind == PolPerRange {
+		t.ranges++
+		return Policy{Kind: PolHash, Seed: mix(p.Seed, t.ranges)}
+	}
+	return p
 }
 
 //go:norace
